@@ -30,11 +30,14 @@ SCRIPTS = {
     "s3": ["CREATE TABLE one (a int);", "CREATE TABLE two (", "  b int,", "  c int,", "  CONSTRAINT fk FOREIGN KEY (b) REFERENCES one (a)", ");"],
     # statements separated by line breaks only (no ';'): the parenthesis balance of the pending statement decides where it ends
     "s5": ["CREATE TABLE a (", "  x int,", "  y int", ")", "CREATE TABLE b (k int, m int)", "ALTER TABLE a ADD UNIQUE (x)", "CREATE TABLE c (", "  z int", ")"],
+    # a Hive table whose SERDEPROPERTIES hold "input.regex" (the pre-processor scans the REST OF THE SCRIPT for the end of that value)
+    "s6": ["CREATE EXTERNAL TABLE r1 (x string) ROW FORMAT SERDE 'a.b.RegexSerDe' WITH SERDEPROPERTIES (\"input.regex\" = \"(a|b)\") STORED AS TEXTFILE;",
+           "CREATE TABLE after1 (", "  k int,", "  m int", ");", "CREATE SEQUENCE sq1 START 1;"],
     "s4": ["SET x = 1;", "CREATE SCHEMA sc;", "CREATE TABLE sc.k (", "  v int CHECK (v > 0),", "  w int", ");", "CREATE DOMAIN sc.d AS varchar(3);"],
 }
 TEXTS = ["note", "a -- b", "---- sec ----", "create table x (y int);", "a, b (c) ; d", "CREATE ALTER DROP", "select * from t where a = 1", "",
          "ALTER", "x ; y ;", "(", "GO", "see note (1", "k; drop table t9; create table t9 (z int);", "later) ok",
-         "the customer's data", "it's (a, b), isn't it"]
+         "the customer's data", "it's (a, b), isn't it", "step 1(( open", "closing )) twice"]
 MARKED_TEXTS = ["/* -- x */", "a /* b", "x */ y", "# z", "-- /* x", "a /* b */"]
 WHOLE = {"--": lambda t: ["-- %s" % t], "--nosp": lambda t: ["--%s" % t], "#": lambda t: ["# %s" % t], "b1": lambda t: ["/* %s */" % t],
          "b1nosp": lambda t: ["/*%s*/" % t], "b2": lambda t: ["/* %s" % t, "*/"], "b3": lambda t: ["/*", " %s" % t, "*/"],
